@@ -42,6 +42,10 @@ namespace nmtools::array
 
             // TODO: provide common base/utility for error handling
 
+            #ifdef NMTOOLS_VERIF
+            if (!::nmtools::utils::isequal(out_shape,inp_shape))
+                NMTOOLS_VERIF_EVAL_SHAPE_MISMATCH(21);
+            #endif
             if (!::nmtools::utils::isequal(out_shape,inp_shape))
                 return false;
 
@@ -98,6 +102,10 @@ namespace nmtools::array
             auto out_shape = ::nmtools::shape(output);
             auto inp_shape = ::nmtools::shape(view);
 
+            #ifdef NMTOOLS_VERIF
+            if (!::nmtools::utils::isequal(out_shape,inp_shape))
+                NMTOOLS_VERIF_EVAL_SHAPE_MISMATCH(21);
+            #endif
             if (!::nmtools::utils::isequal(out_shape,inp_shape))
                 return false;
 
@@ -176,6 +184,10 @@ namespace nmtools::array
             auto out_shape  = ::nmtools::shape(output);
             auto view_shape = ::nmtools::shape(view);
 
+            #ifdef NMTOOLS_VERIF
+            if (!::nmtools::utils::isequal(out_shape,view_shape))
+                NMTOOLS_VERIF_EVAL_SHAPE_MISMATCH(21);
+            #endif
             if (!::nmtools::utils::isequal(out_shape,view_shape))
                 return false;
 
@@ -358,6 +370,10 @@ namespace nmtools::array
             auto out_shape = ::nmtools::shape(output);
             auto inp_shape = ::nmtools::shape(view);
 
+            #ifdef NMTOOLS_VERIF
+            if (!::nmtools::utils::isequal(out_shape,inp_shape))
+                NMTOOLS_VERIF_EVAL_SHAPE_MISMATCH(21);
+            #endif
             if (!::nmtools::utils::isequal(out_shape,inp_shape))
                 return false;
 
@@ -395,6 +411,10 @@ namespace nmtools::array
                 binary_case = BinaryCase::BROADCASTED_2D;
             }
 
+            #ifdef NMTOOLS_VERIF
+            if (binary_case == BinaryCase::INVALID)
+                NMTOOLS_VERIF_EVAL_SHAPE_MISMATCH(21);
+            #endif
             if (binary_case == BinaryCase::INVALID) {
                 return false;
             }
